@@ -69,6 +69,13 @@ def run(ctx):
             uerr.append((u.name, e))
         cl = [f"conv 0 {tid} {name} {boxed} {h}" for tid, name, boxed, h in (tv or [])]
         co = run_lines_resilient(u.gen.exe, [], cl, timeout=600)
+        # the TL2 bytes Go writes for a TL1-decoded value are the ones the model writes for it
+        cm, e = model_run(ref, mv, cl, 2)
+        if e:
+            uerr.append((u.name, e))
+        for l, o, m in zip(cl, co, cm or [None] * len(cl)):
+            if m is not None and o.startswith("ok ") and o.split(" ")[:3] != m.split(" ")[:3]:
+                umism.append((u.name, l, m, o))
         for l, o in zip(cl, co):
             f = o.split(" ")
             if o.startswith("ok ") and len(f) == 4:
